@@ -450,7 +450,9 @@ class ZipShapes(object):
                   'inner-archive-holding-an-encrypted-archive',
                   'missing-file', 'inner-ZIP-uppercase', 'member-in-three-levels', 'member-next-to-one-without-a-date',
                   'member-next-to-inner-archive-with-a-dateless-member',
-                  'one-name-stored-twice', 'one-name-stored-twice-in-an-inner-archive', 'one-name-stored-twice-older-last'):
+                  'one-name-stored-twice', 'one-name-stored-twice-in-an-inner-archive', 'one-name-stored-twice-older-last',
+                  'encrypted-variant-next-to-a-sound-one', 'damaged-variant-next-to-a-sound-one',
+                  'encrypted-variant-next-to-a-sound-one-in-an-inner-archive'):
             yield {'v': v}
 
     def run_case(self, case):
@@ -520,6 +522,19 @@ class ZipShapes(object):
             elif v == 'member-in-three-levels':
                 blob = nested_zip('FOO-MIB.my', b'deep', 3, True)
                 allowed = ['deep']
+            elif 'variant-next-to-a-sound-one' in v:
+                # two members are variants of the name; the one tried first cannot be read (flagged as encrypted / its data damaged)
+                buf = io.BytesIO()
+                with zipfile.ZipFile(buf, 'w', zipfile.ZIP_DEFLATED) as z:
+                    for n, data in (('mibs/FOO-MIB', b'unreadable member ' * 40), ('mibs/FOO-MIB.txt', b'sound sibling')):
+                        zi = zipfile.ZipInfo(n, date_time=ZIP_DT)
+                        zi.compress_type = zipfile.ZIP_DEFLATED
+                        z.writestr(zi, data)
+                blob = patch_member(buf.getvalue(), 'mibs/FOO-MIB', flags=1) if v.startswith('encrypted') else \
+                    patch_member(buf.getvalue(), 'mibs/FOO-MIB', damage=True)
+                if 'inner' in v:
+                    blob = zip_bytes([('inner.zip', blob)])
+                allowed = ['sound sibling']
             elif v.startswith('one-name-stored-twice'):
                 # an update appended to an archive: the same full member name twice, with different texts and stamps
                 import warnings
